@@ -161,16 +161,14 @@ structure Source where
 
 /-- the comparison `next_packet` applies to the sniffing method's result (operator and constant from the source) -/
 def isErrorRet (r : Int) : Bool :=
-  match errorTest.2.toInt? with
-  | none => false
-  | some k =>
-    if errorTest.1 = "<" then decide (r < k)
-    else if errorTest.1 = "<=" then decide (r ≤ k)
-    else if errorTest.1 = "==" then decide (r = k)
-    else if errorTest.1 = "!=" then decide (r ≠ k)
-    else if errorTest.1 = ">" then decide (r > k)
-    else if errorTest.1 = ">=" then decide (r ≥ k)
-    else false
+  match errorTest.1 with
+  | .lt => decide (r < errorTest.2)
+  | .le => decide (r ≤ errorTest.2)
+  | .eq => decide (r = errorTest.2)
+  | .ne => decide (r ≠ errorTest.2)
+  | .gt => decide (r > errorTest.2)
+  | .ge => decide (r ≥ errorTest.2)
+  | .unknown => false
 
 section Loop
 variable {P : Type}
